@@ -10,7 +10,7 @@ stub : reactor, TCP, clock (sim kernel); dawgie.security.connect -> LockSocket
 
 One seeded run = one generated scenario (1-6 clients, 1-3 rounds each of
 acquire -> hold -> release, start phases, hold times, optional table read while
-holding, optional release-without-acquire) executed several times:
+holding, optional release-without-acquire, optional database copy) executed several times:
 
   faults=False : `free_execs` fault-free executions with different interleavings;
   faults=True  : (1) one fault-free pass that records every client protocol point,
@@ -32,6 +32,14 @@ that recv is resumed with data or EOF (`recv.data`).  Disconnect modes:
           meets ConnectionResetError / EOF (message.receive spins on EOF: harness rule
           SimSocket.spin_check parks it for good, probe `client_spinning_on_eof`).
 
+Round kind `copy`: the client calls the real Connector()._copy(dst, Method.connector).  The server
+answers Func.dbcopy with deferToThread(Worker._do_copy): a pool thread of the SERVER (a controlled
+thread of the simulated thread pool) calls the real comms.acquire('copy') over a socket to the server's
+own database port, closes and re-opens the DBI (which replaces DBI().task_engine), copies, calls
+comms.release() and answers the client.  That loop-back connection is a lock user like any other:
+it is a waiter / holder in every oracle (tag `server-copy#n`); it is never killed (it is the server).
+Harness patch: dawgie.db.shelve.util.make_staging_dir (os.system('mkdir ..')) is done in-process.
+
 Everything the oracles use is observed: frames written to each server transport, the
 requests handed to Worker.do, connectionLost as delivered by the simulated TCP, the
 name-mangled Worker flags, dawgie.context.db_lock, and what acquire()/release()
@@ -40,6 +48,7 @@ returned in the client threads.
 
 import collections
 import hashlib
+import os
 import pickle
 import struct
 import traceback
@@ -61,7 +70,7 @@ CYCLE = POLL + max(HOLDS) + 4 * DMAX + 0.5
 
 DEFAULT_CFG = dict(prop='C13', faults=False, free_execs=3, random_execs=3, max_enum=70,
                    modes=('reset', 'fin'), max_clients=6, max_rounds=3, max_steps=6000, max_time=700.0,
-                   stray=(1, 8), hold_io=(1, 4))
+                   stray=(1, 8), hold_io=(1, 4), copy=(1, 6))
 
 
 class ForkChooser:
@@ -106,6 +115,8 @@ class Round:
     def brief(self):
         if self.kind == 'stray':
             return f'stray-release gap={self.gap}'
+        if self.kind == 'copy':
+            return f'db-copy gap={self.gap}'
         return f'lock hold={self.hold}{" +table-read" if self.io else ""} gap={self.gap}'
 
 
@@ -134,6 +145,15 @@ class Client:
         return f'c{self.idx}: start={self.phase} ' + ' | '.join(r.brief() for r in self.rounds)
 
 
+class ServerSide:
+    """owner of the loop-back connections that the server's own pool threads open (database copy)"""
+
+    idx = -1
+    crashed = False
+    stage = 'server'
+    round = 0
+
+
 class ConnState:
     """what the harness has observed about one connection to the database port"""
 
@@ -153,6 +173,7 @@ class ConnState:
         self.lost_at = None
         self.deadline = None
         self.lost_reported = False
+        self.through_copy = False  # was waiting while a database copy held the lock
 
 
 class LockSocket(core.SimSocket):
@@ -301,6 +322,8 @@ class LockWorld:
             rounds = []
             for _ in range(1 + ch.choose('gen.rounds', cfg['max_rounds'])):
                 kind = 'stray' if ch.flip('gen.stray', *cfg['stray']) else 'lock'
+                if kind == 'lock' and ch.flip('gen.copy', *cfg['copy']):
+                    kind = 'copy'
                 hold = HOLDS[ch.choose('gen.hold', len(HOLDS))]
                 gap = GAPS[ch.choose('gen.gap', len(GAPS))]
                 io = kind == 'lock' and ch.flip('gen.hold_io', *cfg['hold_io'])
@@ -350,6 +373,17 @@ class LockWorld:
 
         comms.Worker.do = do
         dawgie.security.connect = lambda address: LockSocket(w, address)
+        import dawgie.context as ctx
+        import dawgie.db.shelve.util as shutil_
+
+        def make_staging_dir():
+            # the tree's version shells out to mkdir; same name, made in-process (unused by Method.connector)
+            t = boot.now_dt()
+            d = '%s/%d-%d-%dT%d:%d' % (ctx.data_stg, t.year, t.month, t.day, t.hour, t.minute)
+            os.makedirs(d, exist_ok=True)
+            return d
+
+        shutil_.make_staging_dir = make_staging_dir
 
     def teardown_env(self):
         pipeenv.close_db()
@@ -379,6 +413,8 @@ class LockWorld:
         self.xviol = len(self.violations)
         self.exec_contended = False
         self.nunhandled = 0
+        self.nloop = 0
+        self.copy_holds = False
         for cl in self.clients:
             cl.reset()
         for cl in self.clients:
@@ -412,7 +448,7 @@ class LockWorld:
         import dawgie.context as ctx
         import dawgie.db.shelve.comms as comms
         import dawgie.security
-        from dawgie.db.shelve.enums import Table
+        from dawgie.db.shelve.enums import Method, Table
 
         sim, th = self.sim, core.current_thread()
         if cl.phase:
@@ -426,6 +462,13 @@ class LockWorld:
                 sock = dawgie.security.connect((ctx.db_host, ctx.db_port))
                 ack = comms.release(sock)
                 self.on_release_returned(cl, sock, ack, held=False)
+            elif rd.kind == 'copy':
+                cl.stage = 'copy'
+                self.xop(f'c{cl.idx}.{r}: database copy requested')
+                self.probes['copy_round'] += 1
+                tables = comms.Connector()._copy(os.path.join(self.dir, 'copy'), Method.connector)
+                self.xop(f'c{cl.idx}.{r}: database copy answered with {len(tables) if isinstance(tables, dict) else tables!r} tables')
+                self.probes['copy_answered' if isinstance(tables, dict) else 'copy_answered_none'] += 1
             else:
                 cl.stage = 'acquire'
                 self.xop(f'c{cl.idx}.{r}: acquire()')
@@ -447,7 +490,8 @@ class LockWorld:
                 th.park(until=sim.now + rd.gap, label='gap')
 
     def all_over(self):
-        return all(cl.over() for cl in self.clients)
+        # the clients and the server's own pool threads (a copy goes on when the client that asked for it died)
+        return all(cl.over() for cl in self.clients) and all(th.done or th.dead for th in self.sim.threads)
 
     def drive(self):
         sim, cfg = self.sim, self.cfg
@@ -551,9 +595,18 @@ class LockWorld:
 
     def on_connect(self, sock):
         cl = sock.cl
-        if cl is None or sock.conn is None:
+        if sock.conn is None:
             return
-        kind = {'acquire': 'lock', 'stray': 'stray', 'hold': 'io'}.get(cl.stage, 'other')
+        if cl is None:
+            th = core.current_thread()
+            if th is not None and th.name.startswith('pool-'):
+                self.nloop += 1
+                st = ConnState(ServerSide(), 'lock', f'server-copy#{self.nloop}')
+                st.loopback = True
+                self.cs[sock.conn.cid] = st
+                self.probes['copy_loopback_connection'] += 1
+            return
+        kind = {'acquire': 'lock', 'stray': 'stray', 'hold': 'io', 'copy': 'copy'}.get(cl.stage, 'other')
         tag = f'c{cl.idx}.{cl.round}' + ('' if kind == 'lock' else f'/{kind}')
         self.cs[sock.conn.cid] = ConnState(cl, kind, tag)
 
@@ -581,6 +634,10 @@ class LockWorld:
                 self.exec_contended = True
                 self.probes['acquire_while_held'] += 1
             self.disturbance()
+            return None
+        if request.func == Func.dbcopy:
+            self.xop(f'server: copy request from {st.tag}')
+            self.probes['copy_request_seen'] += 1
             return None
         if request.func == Func.release:
             st.release_seen = True
@@ -646,6 +703,18 @@ class LockWorld:
                         self.probes['grant_after_waiting'] += 1
                     if st.cl.crashed:
                         self.probes['grant_to_client_that_already_died_unnoticed'] += 1
+                    if getattr(st, 'loopback', False):
+                        self.probes['copy_took_lock'] += 1
+                        if st.busy:
+                            self.probes['copy_took_lock_after_waiting'] += 1
+                        others = [o for o in self.cs.values()
+                                  if o is not st and o.acq_seen_at is not None and o.granted_at is None and o.lost_at is None]
+                        for o in others:
+                            o.through_copy = True
+                        if others:
+                            self.probes['copy_took_lock_while_others_wait'] += 1
+                    elif st.through_copy:
+                        self.probes['waiter_told_after_copy'] += 1
                 else:
                     st.busy += 1
                     self.probes['busy_answer'] += 1
@@ -757,10 +826,13 @@ class LockWorld:
                 t0 = max(self.free_since, st.acq_seen_at)
                 if now > t0 + POLL + EPS:
                     polled = st.last_reply_at is not None and st.last_reply_at > t0 + EPS
-                    self.violate('free_lock_not_granted', 'poll_answered_busy' if polled else 'waiter_not_polled',
-                                 f'the lock has been free since {self.free_since:.3f}, {st.tag} has been waiting since '
-                                 f'{st.acq_seen_at:.3f} with its connection up, and at {now:.3f} (> one poll period) nobody was granted; '
-                                 f'last answer to it at {st.last_reply_at}')
+                    silent = [o.tag for cid, o in self.cs.items() if cid in H and o.granted_at is None]
+                    sig = 'owner_never_told' if silent else ('poll_answered_busy' if polled else 'waiter_not_polled')
+                    self.violate('free_lock_not_granted', sig,
+                                 f'nobody has been holding the lock (told, not released, connected) since {self.free_since:.3f}, {st.tag} has '
+                                 f'been waiting since {st.acq_seen_at:.3f} with its connection up, and at {now:.3f} (> one poll period) nobody '
+                                 f'was told the lock is its; last answer to {st.tag} at {st.last_reply_at}; server-side owners now '
+                                 f'{self.tags(H)} (never told: {silent}), db_lock={L}')
                     break
         for st in W:
             if st.deadline is not None and now > st.deadline + EPS:
@@ -916,7 +988,7 @@ class LockWorld:
             st = self.cs.get(s.conn.cid) if s.conn is not None else None
             if st is None or st.kind != 'lock':
                 if st is not None and state == 'no_connection':
-                    state = 'other_connection'
+                    state = 'copy_client' if st.kind == 'copy' else 'other_connection'
                 continue
             if st.ack is not None or st.release_seen:
                 state = 'released'
